@@ -522,7 +522,7 @@ def run(ctx):
     ctx.rule("C15.first", "nothing is decrypted before the tag has verified", floor=1)
     ctx.rule("C15.use", "callers of MediaCipher: one attempt with the announced kind; failure detected by `is None`", floor=2)
     ctx.rule("C15.kinds", "four kinds, each with its own info constant; a file of one kind is rejected as another; no secrets shared across kinds", floor=5)
-    ctx.assume("AES-CBC, HKDF, HMAC and PKCS7 primitives of `cryptography` / python-axolotl / hmac behave as their documentation says (the laws listed in sa/bytealg.py)")
+    ctx.assume("AES-CBC, HKDF, HMAC and PKCS7 primitives of `cryptography` / python-axolotl / hmac behave as their documentation says (the laws listed in sa/bytealg.py); python-axolotl's HKDFv3 and cryptography's HKDF-SHA256 with the default all-zero salt produce the same stream (both are RFC 5869)")
     ctx.assume("plaintext lengths 0..64 are executed one by one (quick tier: ten of them); longer contents are not decided separately - nothing in the algebra depends on a length except through its residue modulo the block size and the comparisons with 0 and the tag length")
     from . import c15_rt
     decided = ctx.guarded("C15.pad", c15_rt.rule_cipher, ctx)
